@@ -112,30 +112,47 @@ func targets(full bool) []*target {
 	ctr := func(aes, iv int, h string, tag, hk int, v string, id uint32) keyCfg {
 		return keyCfg{KT: "AESCTRHMAC", Variant: v, ID: id, Key: mkKey(r, aes, n), MKey: mkKey(r, hk, n+3), IVLen: iv, TagLen: tag, Hash: h}
 	}
-	hks := []int{16, 20, 32, 64, 65, 128, 129}
-	for hi, h := range hashes {
-		var tags []int
-		if full {
-			for t := 10; t <= digest[h]; t++ {
-				tags = append(tags, t)
-			}
-		} else {
-			tags = []int{10, 11 + r.Intn(digest[h]-12), digest[h]}
+	// HMAC key sizes on both sides of both hash block sizes (64: SHA1/224/256, 128: SHA384/512)
+	hks := []int{16, 32, 63, 64, 65, 100, 127, 128, 129, 200}
+	ctrTarget := func(k int, aes, iv int, h string, tag, hk int) {
+		v := variants[k%3]
+		switch {
+		case k%5 == 4:
+			add("keyset", "proto", "", ctr(aes, iv, h, tag, hk, "LEGACY", pick(n)))
+		case k%3 == 2:
+			add("keyset", "subtle", "", ctr(aes, iv, h, tag, hk, "NO_PREFIX", 0))
+		default:
+			add("keyset", "factory", "", ctr(aes, iv, h, tag, hk, v, pick(n)))
 		}
-		for ti, tag := range tags {
-			for iv := 12; iv <= 16; iv++ {
-				if !full && (iv+ti+hi+seed)%3 != 0 {
-					continue
+	}
+	for hi, h := range hashes {
+		mid := 11 + r.Intn(digest[h]-12)
+		if full {
+			// every tag size x every IV size, HMAC key size and AES key size rotating
+			for tag := 10; tag <= digest[h]; tag++ {
+				for iv := 12; iv <= 16; iv++ {
+					k := tag*5 + iv + hi
+					ctrTarget(k, []int{16, 32}[k%2], iv, h, tag, hks[k%len(hks)])
 				}
-				aes := []int{16, 32}[(iv+ti)%2]
-				v := variants[(iv+ti+hi)%3]
-				add("keyset", "factory", "", ctr(aes, iv, h, tag, hks[(iv+ti+hi)%len(hks)], v, pick(n)))
-				if (iv+ti)%4 == 0 {
-					add("keyset", "subtle", "", ctr(48-aes, iv, h, tag, hks[(iv+ti+hi+1)%len(hks)], "NO_PREFIX", 0))
+			}
+			// every HMAC key size x {min, mid, max} tag x both AES key sizes, IV size rotating
+			for ki, hk := range hks {
+				for ti, tag := range []int{10, mid, digest[h]} {
+					for ai, aes := range []int{16, 32} {
+						ctrTarget(ki+ti+ai+hi+1, aes, 12+(ki+ti+ai)%5, h, tag, hk)
+					}
 				}
-				if (iv+ti)%5 == 0 {
-					add("keyset", "proto", "", ctr(aes, iv, h, tag, 32, "LEGACY", pick(n)))
-				}
+			}
+			continue
+		}
+		// quick: a seeded subset that always has, per hash, one key size <= 64, one in (64, 128] and one > 128,
+		// crossed with {min, mid, max} tag; IV sizes 12..16 and both AES key sizes rotate through
+		sizes := []int{[]int{16, 32, 63, 64}[(seed+hi)%4], []int{65, 100, 127, 128}[(seed+hi)%4], []int{129, 200}[(seed+hi)%2],
+			[]int{64, 65, 128, 63}[(seed+2*hi)%4]}
+		for si, hk := range sizes {
+			for ti, tag := range []int{10, mid, digest[h]} {
+				k := si*3 + ti + hi + seed
+				ctrTarget(k, []int{16, 32}[k%2], 12+k%5, h, tag, hk)
 			}
 		}
 	}
@@ -153,6 +170,24 @@ func targets(full bool) []*target {
 		if full || di%3 == (seed+1)%3 { // the envelope key itself carries an output prefix (legacy adapter of the factory)
 			add("envelope", "kmskeyset", d.Name, simple("AESGCM", 16, "CRUNCHY", pick(n)))
 			ts[len(ts)-1].Env = keyCfg{Variant: []string{"TINK", "CRUNCHY", "LEGACY"}[di%3], ID: pick(n + 1)}
+		}
+	}
+	// size-controlled remotes: encrypted-DEK sizes around every boundary of the envelope code (4096 = the
+	// largest Encrypt emits and therefore must round-trip; 4097: Encrypt may refuse), both envelope types
+	for pi, padTo := range []int{200, 4095, 4096, 4097, 255, 256, 257, 4094} {
+		if !full && pi >= 4 && pi-4 != seed%4 {
+			continue
+		}
+		for ri, route := range []string{"envelope2", "envelopectx"} {
+			d := dekSpecs[(pi*2+ri+seed)%len(dekSpecs)]
+			add("envelope", route, d.Name, simple("AESGCM", []int{16, 32}[(pi+ri)%2], []string{"TINK", "NO_PREFIX"}[(pi+ri)%2], pick(n)))
+			ts[len(ts)-1].RKind, ts[len(ts)-1].PadTo = "padded", padTo
+		}
+	}
+	// the with-context envelope over a plain remote, every DEK template
+	for di, d := range dekSpecs {
+		if full || di%2 == seed%2 {
+			add("envelope", "envelopectx", d.Name, simple("AESGCM", 32, "TINK", pick(n)))
 		}
 	}
 	return ts
@@ -273,7 +308,7 @@ func (q sealReq) j(t *target) map[string]any {
 	for _, k := range order {
 		keys = append(keys, k.j())
 	}
-	m := map[string]any{"n": q.N, "mode": t.Mode, "keys": keys, "dek": "", "ep": vt.Hex(t.envPrefix()), "nonce": vt.Hex(q.Nonce), "pt": vt.Hex(q.Pt),
+	m := map[string]any{"n": q.N, "mode": t.Mode, "keys": keys, "dek": "", "ep": vt.Hex(t.envPrefix()), "rkind": t.rkind(), "padTo": t.PadTo, "nonce": vt.Hex(q.Nonce), "pt": vt.Hex(q.Pt),
 		"ad": vt.Hex(q.Ad), "dekBytes": vt.Hex(q.DekBytes), "kekNonce": vt.Hex(q.KekNonce)}
 	if t.Mode == "envelope" {
 		m["dek"] = q.DekCfg.KT
@@ -286,6 +321,9 @@ func requests(ts []*target, full bool) []sealReq {
 	r := vt.Rng(2)
 	var qs []sealReq
 	for ti, t := range ts {
+		if t.rkind() == "padded" && t.PadTo > 4096 {
+			continue // beyond what Encrypt emits: Decrypt may refuse, nothing to replay from the specification
+		}
 		var lens []int
 		if *prop == "C02" {
 			lens = []int{1, 0}
